@@ -208,6 +208,7 @@ add(Gram("o3", Level([_o3, Named("switch", "s", ["sw"])], make=lambda v: ((v[0].
 add(Gram("a4", None, short_flags="abcs", names=("abcs", ["alpha", "beta", "gamma", "sw"], []), note="repeated choice between three flags"))
 C01_GRAMMARS.append("g4")
 C01_GRAMMARS.append("c5")
+C01_GRAMMARS.append("c7")
 C06_GRAMMARS.append("o3")
 
 add(Gram("c5", Level([
@@ -218,6 +219,12 @@ add(Gram("c6", Level([
     Named("switch", "v", ["verbose"]),
     Cmds([Cmd(["rm"], _c1_rm)], optional=True),
 ]), short_flags="v", short_args="f", note="repeated subcommand (reference Level describes the chain only; not used differentially)"))
+
+_c7_mid = Level([Named("switch", "m", ["mid"]), Cmds([Cmd(["leaf"], _c2_leaf)], optional=True)])
+add(Gram("c7", Level([
+    Named("switch", "v", ["verbose"]),
+    Cmds([Cmd(["mid"], _c7_mid)]),
+]), short_flags="vmz", note="depth 2; the inner command is one branch of a choice whose other branch (`pure`) always succeeds"))
 
 add(Gram("k5", None, short_flags="rs", short_args="w", names=("rsw", ["rect", "sw", "width"], []), note="switch, then optional adjacent group (flag + argument), then optional positional"))
 
